@@ -132,7 +132,7 @@ func runC14(res *Result, d *Driver, tier string, seed uint64) {
 				}
 			}
 		}
-		if el > 2*time.Second {
+		if el > 4500*time.Millisecond { // the call itself is given 5 s; a planted FIFO blocks for ever
 			bad = append(bad, fmt.Sprintf("Open took %v (blocked on a planted object?)", el))
 		}
 		if e := env.Ping(); e != nil {
